@@ -95,7 +95,7 @@ func (c01) Build(tier string, seed uint64) []any {
 	nStruct, nRand, randMax := 800, 400, 256
 	if tier == "thorough" {
 		maxBytes, maxRow = 12, 10
-		nStruct, nRand, randMax = 8000, 4000, 1024
+		nStruct, nRand, randMax = 60000, 30000, 1024
 	}
 	// (enum-a) 8-bit single-sample rows of length 1..maxRow
 	for n := 1; n <= maxRow; n++ {
